@@ -18,6 +18,9 @@ type DlgStep struct {
 	Ask      string
 	Hidden   bool
 	NextMode string // prompt mode entered when Ask == ""
+	// Silent: the device prints nothing at all for this line (no output, no question, no prompt)
+	// and stays silent for the rest of the session.
+	Silent bool
 }
 
 // WriteState is the device state at the arrival of one Write call.
@@ -40,6 +43,7 @@ type Dialogue struct {
 	// LineStates is parallel to CLI.Lines: the state in which each complete line arrived.
 	LineStates []WriteState
 	lineState  WriteState
+	silent     bool
 	// EchoTail > 0: the last EchoTail bytes of every echo are kept back for EchoHold and arrive
 	// in a later read (a terminal that flushes the end of the echoed line late).
 	EchoTail int
@@ -80,12 +84,21 @@ func NewDialogue(mode string, prompts map[string]string, script []DlgStep) *Dial
 		if d.asking < 0 && line == "" && d.step == 0 {
 			return ""
 		}
+		if d.silent {
+			return ""
+		}
 		c.Hidden = false
 		if d.step >= len(d.Script) {
 			d.asking = -1
 			return ""
 		}
 		st := d.Script[d.step]
+		if st.Silent {
+			d.asking = d.step
+			d.step = len(d.Script) + 1
+			d.silent = true
+			return ""
+		}
 		if st.Ask != "" {
 			d.asking = d.step
 			c.Hidden = st.Hidden
@@ -128,93 +141,158 @@ func holdAfter(p *Pipe, n int, hold time.Duration) {
 	})
 }
 
-// EscDevice is an IOS-like device for privilege escalation. Outcome selects what `enable` does in
-// mode exec: "ask" (password question; Secret admits, anything else is refused), "grant" (enters
-// privilege-exec without asking), "refuse" (prints an error, stays in exec, never asks).
+// EscLevel is one privilege level of an EscDevice: its prompt text, the level below it, and the
+// commands that enter it from / leave it to that level.
+type EscLevel struct {
+	Name, Prompt, Prev, Escalate, Deescalate string
+	Auth   bool   // entering asks for the secret (subject to Outcome)
+	Banner string // printed when the level is entered without a question
+}
+
+// IOSTree is the default level tree: exec > privilege-exec (enable, password) > configuration.
+func IOSTree(host string) []EscLevel {
+	return []EscLevel{
+		{Name: "exec", Prompt: host + ">"},
+		{Name: "privilege-exec", Prompt: host + "#", Prev: "exec", Escalate: "enable", Deescalate: "disable", Auth: true},
+		{Name: "configuration", Prompt: host + "(config)#", Prev: "privilege-exec", Escalate: "configure terminal", Deescalate: "end",
+			Banner: "Enter configuration commands, one per line.  End with CNTL/Z.\n"},
+	}
+}
+
+// EscDevice is a privilege-level device (IOS-like by default; Tree replaces the level table).
+// Outcome selects what entering a level with Auth does: "ask" (password question; Secret admits,
+// anything else is refused), "grant" (enters without asking), "refuse" (prints an error, stays,
+// never asks). A Script, if given, is a dialogue played (as by Dialogue) for every line that is no
+// level command: the k-th such line gets the k-th step; the device stays in its level.
 type EscDevice struct {
 	*CLI
-	Outcome   string
-	// Detour, when set, is printed (and held for Hold) in answer to `enable` before the password
-	// question, e.g. the prompt of an unrelated level. Outcome "detour-only": `enable` drops the
-	// device into mode configuration without any question.
+	Tree    []EscLevel
+	Outcome string
+	// Detour, when set, is printed (and held for Hold) in answer to the escalate command before the
+	// password question, e.g. the prompt of an unrelated level. Outcome "detour-only": the command
+	// drops the device into mode configuration without any question.
 	Detour    string
 	Hold      time.Duration
 	Secret    string
 	AskText   string // what the password question looks like, e.g. "Password:"
 	Host      string
+	Script    []DlgStep
+	// Mute: the device never prints anything but the newline that ends a line.
+	Mute      bool
+	step      int
+	askingQ   int // index of the pending script question, -1 none
 	asking    bool
+	pending   string // level entered when the secret is right
 	Asked     int
+	// EchoTail > 0: the last EchoTail bytes of every echo arrive EchoHold later, in a later read.
+	EchoTail    int
+	EchoHold    time.Duration
 	WriteStates []WriteState
 	LineStates  []WriteState
 	lineState   WriteState
 }
 
 func (d *EscDevice) state() WriteState {
-	if d.asking {
+	switch {
+	case d.asking:
 		return WriteState{Mode: "password", Hidden: d.CLI.Hidden}
+	case d.askingQ >= 0:
+		return WriteState{Mode: "ask:" + itoa(d.askingQ), Hidden: d.CLI.Hidden}
 	}
 	return WriteState{Mode: "prompt:" + d.CLI.Mode, Hidden: d.CLI.Hidden}
 }
 
-// NewEscDevice builds the escalation device, starting in mode exec.
+func (d *EscDevice) level(name string) *EscLevel {
+	for i := range d.Tree {
+		if d.Tree[i].Name == name {
+			return &d.Tree[i]
+		}
+	}
+	return &EscLevel{Name: name, Prompt: d.Host + "?"}
+}
+
+// NewEscDevice builds the escalation device, starting in mode exec of the IOS tree.
 func NewEscDevice(host, outcome, secret, askText string) *EscDevice {
-	d := &EscDevice{CLI: NewCLI(), Outcome: outcome, Secret: secret, AskText: askText, Host: host}
+	d := &EscDevice{CLI: NewCLI(), Outcome: outcome, Secret: secret, AskText: askText, Host: host, askingQ: -1}
+	d.Tree = IOSTree(host)
 	d.CLI.Mode = "exec"
 	d.CLI.Prompt = func(c *CLI) string {
-		if d.asking {
+		if d.asking || d.askingQ >= 0 || d.Mute {
 			return ""
 		}
-		switch c.Mode {
-		case "exec":
-			return d.Host + ">"
-		case "privilege-exec":
-			return d.Host + "#"
-		case "configuration":
-			return d.Host + "(config)#"
-		}
-		return d.Host + "?"
+		return d.level(c.Mode).Prompt
 	}
 	d.CLI.Handle = func(c *CLI, line string) string {
 		d.LineStates = append(d.LineStates, d.lineState)
+		if d.Mute {
+			return ""
+		}
 		if d.asking {
 			d.asking = false
 			c.Hidden = false
 			if line == d.Secret {
-				c.Mode = "privilege-exec"
+				c.Mode = d.pending
 				return ""
 			}
 			return "% Access denied\n"
 		}
-		switch {
-		case line == "":
-			return ""
-		case line == "enable" && c.Mode == "exec":
-			switch d.Outcome {
-			case "detour-only":
-				c.Mode = "configuration"
+		if d.askingQ < 0 {
+			if line == "" {
 				return ""
-			case "grant":
-				c.Mode = "privilege-exec"
+			}
+			for i := range d.Tree {
+				l := &d.Tree[i]
+				if l.Escalate == "" || l.Escalate != line || l.Prev != c.Mode {
+					continue
+				}
+				if !l.Auth {
+					c.Mode = l.Name
+					return l.Banner
+				}
+				switch d.Outcome {
+				case "detour-only":
+					c.Mode = "configuration"
+					return ""
+				case "grant":
+					c.Mode = l.Name
+					return ""
+				case "refuse":
+					return "% Authorization failed\n"
+				}
+				d.asking = true
+				d.pending = l.Name
+				d.Asked++
+				c.Hidden = true
+				if d.Detour != "" {
+					holdAfter(c.Pipe, len(c.NL)+len(d.Detour), d.Hold)
+					return d.Detour + c.NL + d.AskText
+				}
+				return d.AskText
+			}
+			if cur := d.level(c.Mode); cur.Deescalate != "" && cur.Deescalate == line {
+				c.Mode = cur.Prev
 				return ""
-			case "refuse":
-				return "% Authorization failed\n"
 			}
-			d.asking = true
-			d.Asked++
-			c.Hidden = true
-			if d.Detour != "" {
-				holdAfter(c.Pipe, len(c.NL)+len(d.Detour), d.Hold)
-				return d.Detour + c.NL + d.AskText
+		}
+		if d.step < len(d.Script) {
+			c.Hidden = false
+			st := d.Script[d.step]
+			if st.Ask != "" {
+				d.askingQ = d.step
+				c.Hidden = st.Hidden
+			} else {
+				d.askingQ = -1
 			}
-			return d.AskText
-		case line == "disable" && c.Mode == "privilege-exec":
-			c.Mode = "exec"
-			return ""
-		case line == "configure terminal" && c.Mode == "privilege-exec":
-			c.Mode = "configuration"
-			return "Enter configuration commands, one per line.  End with CNTL/Z.\n"
-		case line == "end" && c.Mode == "configuration":
-			c.Mode = "privilege-exec"
+			d.step++
+			if st.Pre != "" {
+				holdAfter(c.Pipe, len(c.NL)+len(st.Pre), st.Hold)
+				return st.Pre + c.NL + st.Out + st.Ask
+			}
+			return st.Out + st.Ask
+		}
+		if d.askingQ >= 0 {
+			d.askingQ = -1
+			c.Hidden = false
 			return ""
 		}
 		return "% Invalid input detected at '^' marker.\n"
@@ -223,7 +301,11 @@ func NewEscDevice(host, outcome, secret, askText string) *EscDevice {
 	d.CLI.Pipe.OnWrite = func(b []byte) {
 		d.WriteStates = append(d.WriteStates, d.state())
 		d.lineState = d.state()
+		before := d.CLI.Pipe.Emitted
 		inner(b)
+		if n := d.CLI.Pipe.Emitted - before; d.EchoTail > 0 && n > d.EchoTail && !(len(b) == 1 && b[0] == d.CLI.Return) {
+			holdAfter(d.CLI.Pipe, -d.EchoTail, d.EchoHold)
+		}
 	}
 	return d
 }
